@@ -3,7 +3,7 @@ From Coq Require Import List String Permutation.
 From TS Require Import Model.Str Model.Outcome Model.Unicode Model.Syntax Model.Attrs Model.Types Model.Parse.
 From TS Require Import Model.Lang.TypeScript Model.Lang.Kotlin Model.Lang.Swift Model.Lang.Scala Model.Lang.Go Model.Lang.Python.
 From TS Require Import Spec.Lexers Spec.C15Spec Spec.C15Render.
-From TS Require Proofs.C15 Proofs.C15_Render Proofs.C15_Kotlin Proofs.C15_Go Proofs.C15_Swift.
+From TS Require Proofs.C15 Proofs.C15_Render Proofs.C15_Kotlin Proofs.C15_Go Proofs.C15_Swift Proofs.C15_Python.
 Import ListNotations.
 From TS Require Props.C15.
 
@@ -149,3 +149,17 @@ Goal forall (uc : unicode) (cfg : sw_config) it st text st',
      forallb safe_sw (c15_sw_item_docs uc it)).
 Proof. exact Props.C15.C15_sw_render_partial. Qed.
 Print Assumptions Props.C15.C15_sw_render_partial.
+Goal forall (uc : unicode) (cfg : py_config) it st text st',
+  py_write_item uc cfg it st = Ok (text, st') ->
+  exists parts,
+    text = text_of (c15_file_pieces C15py parts) /\
+    docs_of (c15_file_pieces C15py parts) = map snd (c15_py_item_sites it) /\
+    (Forall (c15_code_neutral C15py) parts ->
+     c15_contained C15py LCode (mark (c15_file_pieces C15py parts)) =
+     forallb (c15_site_ok C15py) (c15_py_item_sites it)).
+Proof. exact Props.C15.C15_py_render_partial. Qed.
+Print Assumptions Props.C15.C15_py_render_partial.
+Goal forall it,
+  Permutation (map snd (c15_py_item_sites it)) (c15_item_generated it ++ c15_item_docs it).
+Proof. exact Props.C15.C15_py_sites_perm. Qed.
+Print Assumptions Props.C15.C15_py_sites_perm.
